@@ -594,3 +594,70 @@ func shallowNodes(n ast.Node) []ast.Node {
 	})
 	return out
 }
+
+// onlyCalledFrom computes the functions of package relpkg that run only on behalf of the
+// given roots: the roots themselves plus every function all of whose callers (in the
+// package, static calls) are already in the set. A helper extracted from a root is in the
+// set; a function that also has a caller outside it is not.
+func onlyCalledFrom(c *Ctx, relpkg string, roots ...string) map[string]bool {
+	set := map[string]bool{}
+	for _, r := range roots {
+		set[r] = true
+	}
+	fns := c.AllFuncs(relpkg)
+	callers := map[string]map[string]bool{}
+	for _, fn := range fns {
+		for _, call := range fn.Calls(true, func(*ast.CallExpr) bool { return true }) {
+			o := fn.enclosing(call).Callee(call)
+			if o == nil {
+				continue
+			}
+			if h := c.FnOfObj(o); h != nil && h.Pkg == fn.Pkg {
+				if callers[h.Name] == nil {
+					callers[h.Name] = map[string]bool{}
+				}
+				callers[h.Name][fn.Name] = true
+			}
+		}
+	}
+	for changed := true; changed; {
+		changed = false
+		for _, fn := range fns {
+			if set[fn.Name] || len(callers[fn.Name]) == 0 {
+				continue
+			}
+			all := true
+			for cl := range callers[fn.Name] {
+				if !set[cl] {
+					all = false
+				}
+			}
+			if all {
+				set[fn.Name] = true
+				changed = true
+			}
+		}
+	}
+	return set
+}
+
+// aofWriterSites lists the calls to the given DiskKV method made on the single-writer path
+// (Start and the helpers only it uses), with the function each call sits in.
+type fnCall struct {
+	g    *Fn
+	call *ast.CallExpr
+}
+
+func aofWriterSites(c *Ctx, key string) []fnCall {
+	w := onlyCalledFrom(c, "kv/aof", "kv/aof.(DiskKV).Start")
+	var out []fnCall
+	for _, fn := range c.AllFuncs("kv/aof") {
+		if !w[fn.Name] {
+			continue
+		}
+		for _, call := range fn.CallsTo(true, key) {
+			out = append(out, fnCall{fn.enclosing(call), call})
+		}
+	}
+	return out
+}
